@@ -19,13 +19,13 @@ from core import Report, ToolError
 from common import TRUSTED, first_with
 
 TRACE_SPEC = "trace/T_C07.tla"
-ACTIONS = ["MCSetup", "Start", "PopVisit", "PopDefer", "UpdateEdgeWith", "FinishNode", "Finish"]
+ACTIONS = ["MCSetup", "Start", "PopVisit", "PopDefer", "Requeue", "UpdateEdgeWith", "FinishNode", "Finish"]
 INVARIANTS = "ConfigInClass LfpIsLeast TypeOK StepBound BelowLFP AboveStart WorklistInv Result HonestStabilized StabilizedIsLeast"
 
 MANIFEST = {
     "category": "model_checking",
     "text": "TLC model-checks the TLA+ machine of fixpoint.rs (spec/Fixpoint.tla: Pop of ANY worklist node, UpdateEdge of ANY pending "
-            "out-edge, FinishNode, Finish, step bound, default value) against an independently defined Kleene least fixpoint on all "
+            "out-edge, FinishNode, Finish, step bound as an upper bound, default value, environment action Requeue for needless re-visits) against an independently defined Kleene least fixpoint on all "
             "problems with 2 nodes (quick) / 3 nodes (thorough; 4 nodes by simulation) over a 4-element lattice with a monotone transfer "
             "family incl. blocking and non-distributive functions, all schedules, plus liveness; and validates recorded runs of the real "
             "solver (random graphs up to 12 nodes and CFG-shaped graphs, six lattices, all priority permutations up to 6 nodes, "
@@ -195,8 +195,10 @@ def check(seed, tier):
     }, ["lattices are finite (3..8 elements); transfers monotone in the order extended by None (checked by TLC per run: Fixpoint!InClass)",
         "a start value replaces the default value of its node (set_node_value), as in fixpoint.rs",
         "the priority list is a permutation of all nodes (what Computation::new and the bottom-up/top-down constructors produce)",
-        "visits of nodes without out-edges make no call-back; their number is inferred by look-ahead to the reported final worklist "
-        "(both choices are schedules of the machine)",
+        "never stricter than the statement: needless re-visits (machine action Requeue) and giving up on a node before the bound "
+        "(PopDefer for any queued node when there is a bound) are accepted; the bound is an upper bound; compute() must reach the LFP",
+        "visits of nodes without out-edges make no call-back; such a node is visited once before Finish unless the solver reports it "
+        "in its final worklist (look-ahead to the end event)",
         "a non-terminating solver is cut off by the harness after %d call-backs and recorded as a panic" % 5000])
 
 
